@@ -38,6 +38,11 @@ def roundtrip_by_path(ir):
     fd, path = tempfile.mkstemp(prefix="c01_", suffix=".gtirb", dir=d)
     os.close(fd)
     try:
+        # the path already holds a (longer) file, e.g. an earlier save
+        buf = io.BytesIO()
+        ir.save_protobuf_file(buf)
+        with open(path, "wb") as f:
+            f.write(buf.getvalue() + buf.getvalue()[8:] + b"\xaa" * 4096)
         ir.save_protobuf(path)
         with open(path, "rb") as f:
             data = f.read()
@@ -165,7 +170,8 @@ def check_spec(label, spec, orders):
             try:
                 data_p, y_p = roundtrip_by_path(x)
                 dp = irgen.diff(irgen.snapshot(y_p), sx)
-                if dp or parse_plain(data_p) != parse_plain(data) \
+                if dp or len(data_p) != len(data) \
+                        or parse_plain(data_p) != parse_plain(data) \
                         or data_p[:8] != data[:8]:
                     out.append(("C01/by-path-differs:%s" % ircases.path_class(dp),
                                 "%s %s: %s" % (label, tag, dp)))
